@@ -161,10 +161,65 @@ func cmdKenforceChild() {
 	}()
 	<-ready
 
+	// optional surroundings of the load (suffixes of the prober field):
+	//   +div   another OS thread has loaded a filter of its own (without thread-sync) before: a thread-sync load must then
+	//          be refused by the kernel and reported as an error - or, if it returns nil, be in force
+	//   +race  another OS thread loads a different policy at the same time; the two LoadFilter calls are made to overlap
+	//          between their prctl and seccomp steps (schedule-point hook)
+	other := seccomp.Policy{DefaultAction: seccomp.ActionAllow, Syscalls: []seccomp.SyscallGroup{{Action: seccomp.ActionErrno,
+		NamesWithCondtions: []seccomp.NameWithConditions{{Name: "getpgrp", Conditions: []seccomp.Condition{{Argument: 0, Operation: seccomp.Equal, Value: 0x7777000077770000}}},
+			{Name: "getegid", Conditions: []seccomp.Condition{{Argument: 1, Operation: seccomp.BitsSet, Value: 0x7777000077770000}, {Argument: 2, Operation: seccomp.LessThan, Value: 3}}}}}}}
+	if strings.Contains(c.prober, "+div") {
+		ok := make(chan error)
+		go func() {
+			runtime.LockOSThread()
+			ok <- seccomp.LoadFilter(seccomp.Filter{NoNewPrivs: true, Policy: other})
+			select {} // keeps its filter for the life of the process
+		}()
+		if err := <-ok; err != nil {
+			os.Exit(5)
+		}
+	}
+	var mu sync.Mutex
 	var calls []seccomp.SeccompCallVerif
-	seccomp.ObserveSeccompVerif = func(sc seccomp.SeccompCallVerif) { calls = append(calls, sc) }
+	seccomp.ObserveSeccompVerif = func(sc seccomp.SeccompCallVerif) {
+		mu.Lock()
+		calls = append(calls, sc)
+		mu.Unlock()
+	}
+	raceDone := make(chan struct{})
+	if strings.Contains(c.prober, "+race") {
+		var arrived int32
+		seccomp.SchedPointVerif = func() {
+			atomic.AddInt32(&arrived, 1)
+			for i := 0; i < 2000 && atomic.LoadInt32(&arrived) < 2; i++ {
+				time.Sleep(time.Millisecond)
+			}
+		}
+		go func() {
+			runtime.LockOSThread()
+			seccomp.LoadFilter(seccomp.Filter{NoNewPrivs: true, Policy: other})
+			close(raceDone)
+			select {}
+		}()
+	} else {
+		close(raceDone)
+	}
+	me := syscall.Gettid()
 	lerr := seccomp.LoadFilter(seccomp.Filter{NoNewPrivs: c.nnp, Flag: seccomp.FilterFlag(c.flags), Policy: *c.policy})
+	<-raceDone
 	seccomp.ObserveSeccompVerif = nil
+	seccomp.SchedPointVerif = nil
+	// the calls made by this thread only
+	mu.Lock()
+	mine := calls[:0:0]
+	for _, sc := range calls {
+		if sc.Tid == me {
+			mine = append(mine, sc)
+		}
+	}
+	calls = mine
+	mu.Unlock()
 
 	atomic.StoreUint32(keU32(mem, keNCalls), uint32(len(calls)))
 	if len(calls) > 0 {
@@ -195,7 +250,7 @@ func cmdKenforceChild() {
 		os.Exit(0)
 	}
 	atomic.StoreUint32(keU32(mem, kePhase), 1)
-	if c.prober == "other" {
+	if strings.HasPrefix(c.prober, "other") {
 		close(start)
 		<-done
 	} else {
